@@ -315,6 +315,12 @@ def _scipy(out):
     _require_stmt(pat, "res = minimize(obj, jac=with_jac, x0=scaling.scaling(initial_point), args=(state, scaling), **self.scipy_minimize_params)", "minimize call")
     _require_stmt(pat, "pyt_individual_params = scaling.unscaling(res.x)", "result = unscaling(res.x)")
     _require_stmt(pat, "return (pyt_individual_params, loss)", "returned parameters")
+    n_asg = sum(1 for n in ast.walk(pat) if isinstance(n, (ast.Assign, ast.AugAssign, ast.AnnAssign))
+                for t in (n.targets if isinstance(n, ast.Assign) else [n.target]) if ast.unparse(t).split("[")[0] == "pyt_individual_params")
+    if n_asg != 1:
+        raise Untranslatable(f"_get_individual_parameters_patient: pyt_individual_params assigned {n_asg} times (the model returns unscaling(res.x) unconditionally)")
+    if sum(1 for n in ast.walk(pat) if isinstance(n, ast.Return)) != 1:
+        raise Untranslatable("_get_individual_parameters_patient: more than one return")
     master = _func(algo, "_get_individual_parameters_patient_master")
     _require_stmt(master, "individual_params_tensorized, _ = self._get_individual_parameters_patient(state, scaling=scaling, with_jac=with_jac, patient_id=patient_id)", "per-patient call")
     _require_stmt(master, "return {k: v.detach().squeeze(0).tolist() for k, v in individual_params_tensorized.items()}", "row as lists")
